@@ -2106,6 +2106,13 @@ class Client:
                     raise e
             else:
                 raise e
+        except NotImplementedError:
+            # Decoding stopped on a length field that is too wide, after the ModeOfOperation echo was read.
+            service_data = cast(Optional[services.RequestFileTransfer.ResponseData], response.service_data)
+            if service_data is not None and service_data.moop_echo is not None and service_data.moop_echo != moop:
+                raise UnexpectedResponseException(response, 'ModeOfOperation echo does not match request and caused the service to failed decoding the payload correctly. Received 0x%02x, Requested=0x%02x' % (
+                    service_data.moop_echo, moop))
+            raise
 
         if response.service_data.moop_echo != moop:
             raise UnexpectedResponseException(
